@@ -147,21 +147,31 @@ def check_roundtrip(ctx, recipes, order, indent, pieces):
                           dict(wit, got=a[:700], want=b[:700]))
             return False
         return True
+    explicit = []
+    if len(order) % 3 == 0 and not any(PLACEHOLDER in p for p in pieces):
+        # dependencies given explicitly come first and are kept as they are - also when an equal one is embedded in the text
+        explicit = [gen.build(recipes[order[0]])]
     try:
-        doc = ht.HTMLTextDocument(text, deps_replace_pattern=PLACEHOLDER)
+        doc = ht.HTMLTextDocument(text, deps=list(explicit), deps_replace_pattern=PLACEHOLDER) if explicit else ht.HTMLTextDocument(text, deps_replace_pattern=PLACEHOLDER)
         out = doc.render()
     except Exception as e:
         ctx.violation("extraction-raises", "HTMLTextDocument raised %r" % e, wit)
         return False
+    if explicit:
+        ctx.count("oracle.explicit_plus_embedded")
+        if not out["dependencies"] or fields(out["dependencies"][0]) != fields(explicit[0]):
+            ctx.violation("extracted-count", "the explicitly given dependency is not first in the result", wit)
+            return False
+        out = dict(out, dependencies=out["dependencies"][1:])
     # the returned dependencies are the caller's: changing them does not change what the document renders next
     for d_ in out["dependencies"]:
         d_.name = d_.name + "-changed-by-caller"
         d_.script.append({"src": "caller.js"})
     out2 = doc.render()
-    if out2["html"] != out["html"] or [fields(x) for x in out2["dependencies"]] == [fields(x) for x in out["dependencies"]] and out["dependencies"]:
+    if out2["html"] != out["html"] or [fields(x) for x in out2["dependencies"][len(explicit):]] == [fields(x) for x in out["dependencies"]] and out["dependencies"]:
         ctx.violation("returned-dependencies-aliased", "changing the dependencies returned by render() changed the document's next rendering", wit)
         return False
-    out = out2
+    out = dict(out2, dependencies=out2["dependencies"][len(explicit):])
     want_text = "".join(pieces)
     if out["html"] != want_text:
         ctx.violation("surrounding-text-damaged", "text after extraction differs from the surrounding pieces", dict(wit, got=out["html"][:600], want=want_text[:600]))
